@@ -54,6 +54,8 @@ var c16Odd = []struct {
 	{"scheme-rel-same", func(i int) string { return fmt.Sprintf("//example.com/story?page=%d", i) }},
 	{"no-href", func(i int) string { return "\x00" }},
 	{"space-path", func(i int) string { return fmt.Sprintf("/a/b c/%d", i) }},
+	{"query-escaped-hash", func(i int) string { return fmt.Sprintf("/story?tag=c%%23&page=%d", i) }},
+	{"query-escaped-amp", func(i int) string { return fmt.Sprintf("/story?q=a%%26b%%3Dc&page=%d", i) }},
 	{"js-upper", func(i int) string { return fmt.Sprintf("JavaScript:go(%d)", i) }},
 }
 
@@ -161,7 +163,7 @@ func c16Enumerate(tier string, emit func(*eng.Case)) {
 						emit(&eng.Case{Kind: "pager", HTML: html, URL: pg.url(k), Algo: algo,
 							P: map[string]string{"doc": fmt.Sprintf("page=%s(%d) k=%d skel=%s %s", pg.name, pi, k, skel, strings.Join(d, " "))}})
 					}
-					if len(odd) == maxOdd || (tier != "thorough" && strings.HasSuffix(skel, "+base") && len(odd) == 1) {
+					if len(odd) == maxOdd || (tier != "thorough" && len(odd) == 1 && (strings.HasSuffix(skel, "+base") || !(pg.name == "query" || pg.name == "path-slash" || pg.name == "query-trailing-slash"))) {
 						return
 					}
 					for s := start; s < nslots; s++ {
@@ -270,7 +272,7 @@ func init() {
 	eng.Register(&eng.Prop{
 		ID:        "C16",
 		DesignRef: "§5 C16",
-		Rule: "7 page-URL families (query, query whose last value ends in a slash, relative query, path with trailing slash, directory with trailing slash, escaped path, https with port and relative file names) x current page k in 1..3 x 6 pager skeletons (numbered, numbered + Prev/Next anchors, Prev/Next only, two pagers, the first two again with a <base href> on another host) x both algorithms; every assignment of <= 2 (quick) / <= 3 (thorough) link slots to one of 22 odd hrefs (javascript:, empty, #, mailto:, off-site, scheme-relative, look-alike host, upper-case host, userinfo, other port, relative file/dir, ../, fragment, ftp:, data:, unparseable, missing href, space in path, JavaScript:). " +
+		Rule: "7 page-URL families (query, query whose last value ends in a slash, relative query, path with trailing slash, directory with trailing slash, escaped path, https with port and relative file names) x current page k in 1..3 x 6 pager skeletons (numbered, numbered + Prev/Next anchors, Prev/Next only, two pagers, the first two again with a <base href> on another host) x both algorithms; every assignment of <= 2 (quick: two odd slots for three of the families, one for the others) / <= 3 (thorough) link slots to one of 24 odd hrefs (escaped #, & and = inside a query value, javascript:, empty, #, mailto:, off-site, scheme-relative, look-alike host, upper-case host, userinfo, other port, relative file/dir, ../, fragment, ftp:, data:, unparseable, missing href, space in path, JavaScript:). " +
 			"Oracle: a non-empty NextPage/PrevPage parses, is http(s), has the page's host (case-insensitively), and equals - after dropping the fragment and one trailing slash, paths compared decoded - the RFC 3986 resolution of some anchor's href against the page URL as supplied. Non-trivial = a link was returned and the document holds >= 1 non-fetchable/off-site href.",
 		Enumerate: c16Enumerate,
 		Check:     c16Check,
